@@ -237,11 +237,12 @@ Proof.
     apply andb_true_iff. split; apply Nat.leb_le; assumption.
   - destruct (last_is_paragraph st) as [[before t]|] eqn:El.
     + inversion H; subst. apply linv_replace_last; [eapply last_par_lvls; eassumption|]. cbn. destruct (str_eqb _ _); reflexivity.
-    + destruct (bmatch_rules C (named C [RThematic; RList]) (s_src st) (s_cursor st)) as [[rk2 m2]|] eqn:Eb; [|inversion H; subst; exact Hs].
+    + set (sub := if Nat.leb (b_max_nested C) (s_depth st) then [RThematic] else [RThematic; RList]) in *.
+      destruct (bmatch_rules C (named C sub) (s_src st) (s_cursor st)) as [[rk2 m2]|] eqn:Eb; [|inversion H; subst; exact Hs].
       pose proof Hm as (M1 & M2 & M3 & _). assert (Hp : s_cursor st <= length (s_src st)) by (unfold cursor_max in *; lia).
       destruct (bmatch_rules_spec C _ _ _ _ _ (named_solid C OK _) Hp Eb) as (r & Hin & Hmm & A & B & Cc).
       assert (Hmok : mok C rk2 m2 st).
-      { apply (mok_of_bmatch C (named C [RThematic; RList]) st rk2 m2 r (named_solid C OK _) Hp Hin Hmm A B Cc). right; left. exact (named_in C _ _ _ Hin). }
+      { apply (mok_of_bmatch C (named C sub) st rk2 m2 r (named_solid C OK _) Hp Hin Hmm A B Cc). right; left. exact (named_in C _ _ _ Hin). }
       exact (Hl _ _ _ _ _ _ _ Hmok H Hs).
   - inversion H; subst. apply linv_append; auto.
   - exact (handle_quote_levels h _ _ _ _ _ _ Hl H Hs).
